@@ -27,7 +27,7 @@
 
     Executable definitions only. *)
 
-From Coq Require Import List Bool DecimalString.
+From Coq Require Import List Bool Ascii DecimalString.
 From Patronus Require Export Analysis Script.
 Import ListNotations.
 Open Scope N_scope.
@@ -209,3 +209,62 @@ Definition get_signal_at (en : enc) (e : expr) (k : N) : option expr :=
             | _ => None
             end
   end.
+
+(** ** a checkable condition on names under which step symbols are distinct:
+    the base names of signals and states are pairwise distinct and contain no ['@'] *)
+Fixpoint no_at (s : string) : bool :=
+  match s with
+  | EmptyString => true
+  | String c r => negb (Ascii.eqb c "@"%char) && no_at r
+  end.
+
+Fixpoint nodup_strings (l : list string) : bool :=
+  match l with
+  | [] => true
+  | x :: r => negb (existsb (String.eqb x) r) && nodup_strings r
+  end.
+
+Definition base_names (en : enc) : list string :=
+  map sg_name (e_sigs en) ++ map (fun st => sym_name (st_sym st)) (s_states (e_sys en)).
+
+Definition names_ok (en : enc) : bool :=
+  nodup_strings (base_names en) && forallb no_at (base_names en).
+
+(** ** executable versions of the classes used in the theorems (for the evidence) *)
+(** [known_class]: the use patterns on which the current code fails *)
+Definition known_class_b (en : enc) (j : N) : bool :=
+  existsb (fun s =>
+    if j =? 0 then next_only s && pos (u_init (sg_uses s))
+    else negb (next_only s) && negb (pos (u_other (sg_uses s)) || sg_input s)) (e_sigs en).
+
+(** [init_reads_ok]: init signals mention no state; inits read earlier states only *)
+Fixpoint symbols_in (e : expr) : list expr :=
+  match e with
+  | BVSymbol _ _ | ArraySymbol _ _ _ => [e]
+  | BVLiteral _ _ => []
+  | BVZeroExt a _ _ | BVSignExt a _ _ | BVSlice a _ _ | BVNot a _ | BVNegate a _
+  | ArrayConstant a _ _ => symbols_in a
+  | BVEqual a b | BVImplies a b | BVGreater a b | BVGreaterSigned a b _
+  | BVGreaterEqual a b | BVGreaterEqualSigned a b _ | BVConcat a b _
+  | BVAnd a b _ | BVOr a b _ | BVXor a b _ | BVShiftLeft a b _
+  | BVArithmeticShiftRight a b _ | BVShiftRight a b _ | BVAdd a b _ | BVMul a b _
+  | BVSignedDiv a b _ | BVUnsignedDiv a b _ | BVSignedMod a b _ | BVSignedRem a b _
+  | BVUnsignedRem a b _ | BVSub a b _ | BVArrayRead a b _ | ArrayEqual a b => symbols_in a ++ symbols_in b
+  | BVIte a b c | ArrayStore a b c | ArrayIte a b c => symbols_in a ++ symbols_in b ++ symbols_in c
+  end.
+
+Fixpoint inits_read_earlier (seen : list expr) (sts : list state) (all : list expr) : bool :=
+  match sts with
+  | [] => true
+  | st :: r =>
+      match st_init st with
+      | Some e => forallb (fun y => negb (mem y all) || mem y seen) (symbols_in e)
+      | None => true
+      end && inits_read_earlier (st_sym st :: seen) r all
+  end.
+
+Definition init_reads_ok_b (en : enc) : bool :=
+  let state_syms := map st_sym (s_states (e_sys en)) in
+  forallb (fun s => negb (pos (u_init (sg_uses s))) ||
+                    forallb (fun y => negb (mem y state_syms)) (symbols_in (sg_expr s))) (e_sigs en) &&
+  inits_read_earlier [] (s_states (e_sys en)) state_syms.
